@@ -63,6 +63,7 @@ for (kind, name), occ in sorted(failing.items()):
     cfgs = sorted(set(o[0] for o in occ))
     files = assemble(occ[0][2], header_main=PTR_HELPER)
     rf = {"module/" + k: v for k, v in files.items()}
+    rf["module/go.mod"] = "module %s\n\ngo 1.26\n" % MOD
     rf["replay.sh"] = "cd module && go build -o plain . && garble %s build -o out . && ./plain a > p.txt; ./out a > g.txt; diff p.txt g.txt\n" % cfgs[0]
     R.violation("%s:%s" % (kind, name), "unit %r under configs %s: %s" % (name, cfgs, occ[0][1]), rf)
 
